@@ -134,6 +134,8 @@ const MUT_DOCS: &[&str] = &[
     "mutation { m { a n } x: m { n a } }",
     "mutation { inc m { a } mn }",
     "mutation { a1: inc a2: inc a3: inc }",
+    "mutation { minn m { a n } mn }",
+    "mutation { mn minn x: m { n a } inc }",
 ];
 
 fn part_b(cx: &Cx, schema: &s1::S1) {
@@ -143,21 +145,39 @@ fn part_b(cx: &Cx, schema: &s1::S1) {
         &|ch: &mut Chooser| {
             let di = ch.any("doc", MUT_DOCS.len());
             let text = MUT_DOCS[di];
+            // one failing resolver (or none): every root key and every nested field of the document
+            let doc0 = agv_refgql::parse::parse_exec(text).unwrap();
+            let mut sites: Vec<String> = Vec::new();
+            for s in &doc0.ops().next().unwrap().sel {
+                if let agv_refgql::ast::Selection::Field(f) = s {
+                    sites.push(f.key().to_string());
+                    for c in &f.sel {
+                        if let agv_refgql::ast::Selection::Field(cf) = c {
+                            sites.push(format!("{}.{}", f.key(), cf.key()));
+                        }
+                    }
+                }
+            }
+            let fk = ch.any("fault", sites.len() + 1);
+            let mut table = BTreeMap::new();
+            if fk > 0 {
+                table.insert(sites[fk - 1].clone(), agv_refgql::exec::Ans::Err);
+            }
             let h = Handle::new();
-            let mut wdv = Wd::new(Default::default());
+            let mut wdv = Wd::new(table);
             wdv.gates = Some(h.clone());
             let wd = Arc::new(wdv);
             let req = Request::new(text).data(wd.clone());
             let r = sched::run(&h, ch, &RunCfg { policy: Policy::Eager, gate_class: Class::Exhaustive, preempt_class: Class::Dev(3), max_steps: 5000 }, schema.execute(req), &mut |_| {});
-            (di, r.end, r.schedule, r.output.as_ref().map(obs_of), wd.take_log(), ch.choices())
+            (di, r.end, r.schedule, r.output.as_ref().map(obs_of), wd.take_log(), ch.choices(), wd.table.keys().next().cloned())
         },
-        &|_, (di, end, schedule, obs, log, choices)| {
+        &|_, (di, end, schedule, obs, log, choices, fault)| {
             cx.eval();
             cx.add_traces(1);
             cx.add_transitions(schedule.len() as u64);
             sched_count.fetch_add(1, Ordering::Relaxed);
             let text = MUT_DOCS[di];
-            let case = json!({"query": text, "schedule": schedule, "choices": choices, "log": log});
+            let case = json!({"query": text, "schedule": schedule, "choices": choices, "log": log, "failing_resolver": fault});
             if end != End::Done {
                 cx.violation(Violation::new("deadlock", format!("mutation ended {end:?} after {schedule:?}"), case).key("part", "b"));
                 return;
@@ -172,7 +192,9 @@ fn part_b(cx: &Cx, schema: &s1::S1) {
             };
             let seq: Vec<usize> = log.iter().filter_map(|e| root_of(e)).collect();
             let sorted = seq.windows(2).all(|w| w[0] <= w[1]);
-            let all_roots_seen = (0..roots.len()).all(|i| seq.contains(&i));
+            // after a failing non-null root field the remaining root fields may legitimately be skipped
+            let data_nulled = obs.as_ref().map(|o| o.data == "null").unwrap_or(false);
+            let all_roots_seen = data_nulled || (0..roots.len()).all(|i| seq.contains(&i));
             if !sorted || !all_roots_seen {
                 cx.violation(
                     Violation::new("mutation-roots-not-serial", format!("resolver log {log:?} is not grouped by root field in document order {roots:?} (schedule {schedule:?})"), case)
@@ -180,8 +202,8 @@ fn part_b(cx: &Cx, schema: &s1::S1) {
                 );
             }
             if let Some(o) = obs {
-                cx.nontrivial(agv_engine::h64(&(di, &schedule)));
-                cx.sample_with(agv_engine::h64(&(di, &schedule)), || json!({"part": "b", "query": text, "schedule": schedule, "log": log, "data": o.data}));
+                cx.nontrivial(agv_engine::h64(&(di, &schedule, &fault)));
+                cx.sample_with(agv_engine::h64(&(di, &schedule, &fault)), || json!({"part": "b", "query": text, "schedule": schedule, "log": log, "data": o.data}));
             }
         },
     );
@@ -207,7 +229,7 @@ fn run(cx: &Cx) {
     part_a(cx, &refs, &schema, &m, "static-mutation", deco, &repeated, &agree);
     part_b(cx, &schema);
     cx.rule(&format!(
-        "part a: case = valid document with ≥ 1 repeated response key (every document ≤ {n} nodes over a subset of S1, ≤ {deco} alias/directive decorations, fragments inline and named) in the all-default world; oracle = one resolver start per response path + data equals the reference merge. part b: {} mutation documents × every order of gate openings; invariant = log grouped by root field in document order. Non-trivial = part-a documents with a repeated key + part-b schedules.",
+        "part a: case = valid document with ≥ 1 repeated response key (every document ≤ {n} nodes over a subset of S1, ≤ {deco} alias/directive decorations, fragments inline and named) in the all-default world; oracle = one resolver start per response path + data equals the reference merge. part b: {} mutation documents × (no fault | one failing resolver at every root or nested field) × every order of gate openings; invariant = log grouped by root field in document order. Non-trivial = part-a documents with a repeated key + part-b schedules.",
         MUT_DOCS.len()
     ));
     cx.exhaustive(true);
